@@ -258,6 +258,168 @@ fn case_random(t: &mut Tape, st: &mut Stats) -> Verdict {
     run_case(pred, wrapper, vals, stored, t, st)
 }
 
+
+/// (sequences) several wrapped invocations in ONE run: what an earlier wrapped call was given must not leak into a
+/// later one. The argument lists of consecutive calls are related: equal, or the same text cut at other boundaries.
+fn case_sequence(t: &mut Tape, st: &mut Stats) -> Verdict {
+    let calls = 2 + t.below(4);
+    let mut lists: Vec<Vec<String>> = vec![];
+    for j in 0..calls {
+        let fresh = |t: &mut Tape| -> Vec<String> {
+            let n = 1 + t.below(4);
+            (0..n)
+                .map(|_| {
+                    let v = compose(t);
+                    v.replace(['\r', '\n', '"', '#'], "_").replace("\\$", "\\_").replace("\\%", "\\_").replace("${", "$_").replace("%{", "%_")
+                })
+                .collect()
+        };
+        let l = if j == 0 {
+            fresh(t)
+        } else {
+            match t.weighted(&[3, 2, 2]) {
+                0 => {
+                    // same text, same number of arguments, other boundaries
+                    let prev = lists[t.below(j)].clone();
+                    let all: Vec<char> = prev.concat().chars().collect();
+                    let n = prev.len();
+                    let mut cuts: Vec<usize> = (0..n - 1).map(|_| t.below(all.len() + 1)).collect();
+                    cuts.sort();
+                    let mut out = vec![];
+                    let mut at = 0;
+                    for c in cuts {
+                        out.push(all[at..c].iter().collect::<String>());
+                        at = c;
+                    }
+                    out.push(all[at..].iter().collect::<String>());
+                    if out != prev {
+                        st.class("same-text-cut-at-other-boundaries");
+                    }
+                    out
+                }
+                1 => {
+                    st.class("same-arguments-again");
+                    lists[t.below(j)].clone()
+                }
+                _ => fresh(t),
+            }
+        };
+        lists.push(l);
+    }
+    for l in &lists {
+        if classify(&[], l).is_some() {
+            return Verdict::Discard("value of a known class");
+        }
+    }
+    // a scoped function: it sees exactly the arguments of the current call (unscoped, ${2}.. of an earlier call would linger)
+    let mut script = String::from("fn <scope> uf\n    emit uf ${1} ${2} ${3} ${4} ${5} ${6}\n    ufr = cap\n    return ${ufr}\nend\n");
+    let mut side = vec![];
+    let mut answers = vec![];
+    let mut plan = vec![];
+    for (j, l) in lists.iter().enumerate() {
+        let mut refs = String::new();
+        for (i, v) in l.iter().enumerate() {
+            script.push_str(&format!("a{}_{} = put {}\n", j, i, side.len()));
+            side.push(v.clone());
+            refs.push_str(&format!(" ${{a{}_{}}}", j, i));
+        }
+        let use_fn = t.chance(1, 3);
+        let mut wrapper = *t.pick_ref(WRAPPERS);
+        if wrapper == Wrapper::Alias && use_fn {
+            wrapper = Wrapper::If;
+        }
+        let pname = if use_fn { "uf" } else { *t.pick_ref(&["cap", "cap2", "hz_capture"]) };
+        let direct_first = t.chance(2, 3);
+        let ans = if t.flip() { "true" } else { "false" };
+        if direct_first {
+            script.push_str(&format!("d{} = {}{}\n", j, pname, refs));
+            answers.push(ans.to_string());
+        }
+        answers.push(ans.to_string());
+        match wrapper {
+            Wrapper::Not => script.push_str(&format!("r{} = not {}{}\n", j, pname, refs)),
+            Wrapper::If => script.push_str(&format!("if {}{}\n    emit branch {} T\nelse\n    emit branch {} F\nend\n", pname, refs, j, j)),
+            Wrapper::ElseIf => script.push_str(&format!("if false\n    emit branch {} wrong\nelseif {}{}\n    emit branch {} T\nelse\n    emit branch {} F\nend\n", j, pname, refs, j, j)),
+            Wrapper::While => script.push_str(&format!("while {}{}\n    emit branch {} T\n    goto :out{}\nend\nemit branch {} F\n:out{}\n", pname, refs, j, j, j, j)),
+            Wrapper::Alias => script.push_str(&format!("alias al{} {}\nr{} = al{}{}\n", j, pname, j, j, refs)),
+        }
+        st.class(&format!("wrapper-{:?}", wrapper));
+        plan.push((j, wrapper, use_fn, direct_first, ans == "true"));
+    }
+    script.push_str("emit done\n");
+    hz_reset();
+    with_hz(|h| {
+        h.side = side;
+        h.cap_answers = answers;
+    });
+    let out = run_text(&script, sdk_context(), 40_000, None);
+    let desc = |what: &str, extra: serde_json::Value| json!({"script": script, "argument_lists": lists, "mismatch": what, "detail": extra});
+    let ctx = match out.result {
+        Ok(c) => c,
+        Err(e) => return fail("C09/sequence/run-error", desc("run failed", json!(format!("{:?}", e)))),
+    };
+    // observed invocations, in order: cap events carry the arguments (capture predicate) or follow an `emit uf` (function)
+    let trace = with_hz(|h| h.trace.clone());
+    let mut seen: Vec<Vec<String>> = vec![];
+    let mut i = 0;
+    while i < trace.len() {
+        let e = &trace[i];
+        if e.cmd == "emit" && e.args.first().map(|a| a == "uf").unwrap_or(false) {
+            seen.push(e.args[1..].to_vec());
+            i += 2; // the function's own `cap`
+            continue;
+        }
+        if e.cmd == "cap" {
+            seen.push(e.args.clone());
+        }
+        i += 1;
+    }
+    let mut k = 0;
+    for (j, wrapper, use_fn, direct_first, ans) in &plan {
+        let l = &lists[*j];
+        let want: Vec<String> = if *use_fn {
+            // the function prints ${1}..${6}: empty and missing arguments vanish from the emit line
+            l.iter().filter(|v| !v.is_empty()).cloned().collect::<Vec<_>>()
+        } else {
+            l.clone()
+        };
+        let n_inv = if *direct_first { 2 } else { 1 };
+        for which in 0..n_inv {
+            let got = seen.get(k).cloned();
+            k += 1;
+            let norm = |g: &Vec<String>| -> Vec<String> { if *use_fn { g.iter().flat_map(|x| x.split(' ').map(|s| s.to_string()).collect::<Vec<_>>()).filter(|s| !s.is_empty()).collect() } else { g.clone() } };
+            let want_n = norm(&want);
+            if got.as_ref().map(|g| norm(g)) != Some(want_n) {
+                let wrapped = which + 1 == n_inv;
+                if !wrapped {
+                    return fail("C09/sequence/direct-call-arguments", desc("direct call", json!({"call": j, "expected": want, "received": got})));
+                }
+                return fail(&format!("C09/sequence/{:?}/arguments-differ", wrapper), desc("a wrapped call did not receive the arguments written for it", json!({"call": j, "expected": want, "received": got})));
+            }
+        }
+        // outcome
+        let ok = match wrapper {
+            Wrapper::Not => ctx.variables.get(&format!("r{}", j)).map(|s| s.as_str()) == Some(if *ans { "false" } else { "true" }),
+            Wrapper::Alias => ctx.variables.get(&format!("r{}", j)).map(|s| s.as_str()) == Some(if *ans { "true" } else { "false" }),
+            _ => {
+                let b: Vec<String> = trace.iter().filter(|e| e.cmd == "emit" && e.args.len() == 3 && e.args[0] == "branch" && e.args[1] == j.to_string()).map(|e| e.args[2].clone()).collect();
+                b == vec![if *ans { "T" } else { "F" }.to_string()]
+            }
+        };
+        if !ok {
+            return fail(&format!("C09/sequence/{:?}/outcome-differs", wrapper), desc("branch / output is not the one the predicate's answer determines", json!({"call": j, "answer": ans})));
+        }
+    }
+    if seen.len() != k {
+        return fail("C09/sequence/extra-invocations", desc("more predicate invocations than written", json!({"expected": k, "seen": seen.len()})));
+    }
+    if st.want_sample() {
+        let s = script.clone();
+        st.sample(|| json!({"script": s}));
+    }
+    Verdict::Pass(Some(fp(&(&script, &lists))))
+}
+
 /// exhaustive grid: single feature values x wrappers x positions (3 arguments, cap predicate)
 fn grid_size() -> u64 {
     (FEATURES.len() * WRAPPERS.len() * 3 * 2) as u64
@@ -310,7 +472,7 @@ fn probe_alias_of_function() -> Option<String> {
 pub fn property() -> Property {
     Property {
         id: "C09",
-        rule: "a predicate (harness capture command under three names, a user function, equals/contains/starts_with/is_empty) called directly and then wrapped in not / if / elseif / while / a script-level alias (0..2 stored arguments), with 1..4 argument values delivered through variables and composed from 64 feature fragments and hazard strings; the wrapped invocation must receive the same argument vector as the direct one and the branch / not output / alias result must be the one the direct output determines. (grid) every single feature x wrapper x argument position x {capture, user function} exhaustively. Values falling in a class listed in KNOWN_FINDINGS.txt are counted separately (excluded_known) and re-confirmed by probes; everything else is strict. Non-trivial: a value that is empty or has a non-alphanumeric character, outside the known classes; distinct by (wrapper, predicate, values)",
+        rule: "a predicate (harness capture command under three names, a user function, equals/contains/starts_with/is_empty) called directly and then wrapped in not / if / elseif / while / a script-level alias (0..2 stored arguments), with 1..4 argument values delivered through variables and composed from 64 feature fragments and hazard strings; the wrapped invocation must receive the same argument vector as the direct one and the branch / not output / alias result must be the one the direct output determines. (grid) every single feature x wrapper x argument position x {capture, user function} exhaustively. (sequences) 2..5 wrapped invocations in one run (each its own wrapper, capture or user function, with or without a preceding direct call) whose argument lists are equal to an earlier one, or the same text cut at other boundaries, or fresh: each must receive the list written for it and decide by its own answer. Values falling in a class listed in KNOWN_FINDINGS.txt are counted separately (excluded_known) and re-confirmed by probes; everything else is strict. Non-trivial: a value that is empty or has a non-alphanumeric character, outside the known classes; distinct by (wrapper, predicate, values)",
         assumptions: &[
             "the eval command itself is not a wrapper here (it is documented to expand what it is given)",
             "known classes are predicates on the final value: cr-or-lf, leading-quote, quote-with-space, hash-without-space, backslash-before-dollar-or-percent, expansion-opener, trailing-whitespace-in-last-argument, equals-leading-first-argument",
@@ -321,6 +483,15 @@ pub fn property() -> Property {
                 plan: |_| Plan::Exhaustive { count: grid_size() },
                 case: case_grid,
                 min_classes: &[],
+            },
+            Section {
+                name: "sequences",
+                plan: |t| match t {
+                    Tier::Quick => Plan::Random { cases: 40_000, max_len: 200 },
+                    Tier::Thorough => Plan::Random { cases: 1_500_000, max_len: 240 },
+                },
+                case: case_sequence,
+                min_classes: &[("same-text-cut-at-other-boundaries", 5000), ("same-arguments-again", 5000)],
             },
             Section {
                 name: "random",
